@@ -119,18 +119,28 @@ paths:
             text/plain:
               schema:
                 type: string
+              example: hello
             application/json:
               schema:
                 type: array
                 items:
                   - type: string
                   - type: integer
+              examples:
+                one:
+                  summary: a pair
+                  value: [a, 1]
+                two:
+                  $ref: '#/components/examples/Pair'
 components:
   securitySchemes:
     key:
       type: apiKey
       in: header
       name: X-Key
+  examples:
+    Pair:
+      value: [b, 2]
   parameters:
     Id:
       name: id
